@@ -33,7 +33,7 @@ CASE_RE = re.compile(r'^<<"CASE", "(.*)">>$', re.M)
 BAD_RE = re.compile(r'^<<"BAD", (\d+), "([^"]*)", "(.*)">>$')
 
 TIERS = {
-    "quick": dict(a_cfg="MC_Backoff_q", a_random=4000, b_cfg="MC_Retry_q", b_pick=11, b_par=1, b_budget=70,
+    "quick": dict(a_cfg="MC_Backoff_q", a_random=4000, b_cfg="MC_Retry_q", b_pick=12, b_par=1, b_budget=70,
                   sim=0),
     "thorough": dict(a_cfg="MC_Backoff", a_random=120000, b_cfg="MC_Retry", b_pick=None, b_par=6, b_budget=600,
                      sim=1500),
@@ -220,6 +220,8 @@ def feat(s):
         f.add("request_timeout_then_served")
     if behs == ["mute", "mute", "healthy"] and opens == [True, False, False]:
         f.add("request_timeout_twice_then_served")
+    if behs == ["drop_unserved", "healthy"] and opens == [True, False]:
+        f.add("inflight_request_survives_connection_loss")
     if behs == ["refuse", "down"] and opens == [False, True] and s["mrc"] == 2:
         f.add("down_give_up")
     if behs == ["close_abrupt", "down"] and s["mrc"] == 0 and opens == [False, True]:
@@ -232,7 +234,7 @@ def feat(s):
 
 
 QUICK_FEATURES = ["give_up", "stall_then_healthy", "fatal_after_failures", "orderly_close", "abrupt_close_pending_served",
-                  "request_timeout_then_served", "request_timeout_twice_then_served", "down_give_up", "down_for_ever", "reset_counts", "stall_give_up"]
+                  "request_timeout_then_served", "request_timeout_twice_then_served", "inflight_request_survives_connection_loss", "down_give_up", "down_for_ever", "reset_counts", "stall_give_up"]
 
 
 def b_model_check(cfg, need_cases=True, needs=("Choose", "OpenNow")):
